@@ -670,6 +670,22 @@ def freq_vectors(tier, rng):
     v[0] = 5000
     v[97] = 9000
     out.append(("text-like", v))
+    # many small tied weights: tie-breaking of the Hu-Tucker combination phase decides realisability
+    for i in range(60 if thorough else 16):
+        hi = 3 if i % 2 == 0 else 8
+        out.append(("ties%d_%d" % (hi, i), [1 + r.below(hi) for _ in range(256)]))
+    v = [1] * 256
+    v[250:255] = [3, 1, 3, 1, 4]
+    out.append(("ties-tail", v))
+    # what the dictionaries really count: byte frequencies of small front-coded texts (+1 everywhere)
+    for i in range(30 if thorough else 8):
+        S = gen.g2_dict(r, r.range(3, 40), r.choice([2, 4, 26]), r.choice(["short", "mid"]))
+        v = [1] * 256
+        for s_ in S:
+            for b_ in s_:
+                v[b_] += 1
+            v[0] += 1
+        out.append(("dict%d" % i, v))
     for i in range(40 if thorough else 10):
         mode = r.below(3)
         if mode == 0:
